@@ -19,5 +19,10 @@ for n in 1024_1 6144_1 8192_1; do
   openssl genpkey -algorithm RSA -pkeyopt rsa_keygen_bits:${n%_*} -outform DER -out rsa$n.pkcs1.der
   openssl pkcs8 -topk8 -nocrypt -inform DER -in rsa$n.pkcs1.der -outform DER -out rsa$n.pkcs8.der
 done
+# EC keys without the optional embedded public key (ring requires it, aws-lc-rs does not)
+for c in 256 384; do
+  openssl ec -in p${c}_1.sec1.der -inform DER -no_public -outform DER -out p${c}_3np.sec1.der
+  openssl pkcs8 -topk8 -nocrypt -inform DER -in p${c}_3np.sec1.der -outform DER -out p${c}_3np.pkcs8.der
+done
 openssl genpkey -algorithm ED448 -outform DER -out ed448_1.pkcs8.der
 chmod 644 *
